@@ -8,7 +8,10 @@
      so that every [pick] describes a legal run of a binary heap and every legal run is described by
      some [pick].  The theorems quantify over all [pick].
    - lc_map (BTreeMap cache of lifecycle start times, filled on first sight; 0 when the id is unknown or
-     the evmap handle yields no map) ; the evmap read handle is the function argument [lcs : id -> option start].
+     the evmap handle yields no map).  The evmap read handle is the function argument
+     [lcs : nat -> nat -> id -> option start]: the table as it is when the message at input position i is
+     looked up after np messages have been delivered (the table may change while the function runs: a
+     concurrent writer, or the outflow closure itself).  [fixed t] is a table that does not change.
    - max_buffering_delays : HashMap ecu -> (lifecycle id, VecDeque<MaxBufferDelayEntry>, max) as an association
      list.  The only iteration over the HashMap is `max_by_key` whose result is used through its key value
      alone, so the iteration order is unobservable and not modelled.
@@ -204,9 +207,14 @@ Definition update_delays (w mind : N) (d : delays) (thr ecu lc rt delay : N) : r
   if (recalc : bool) then t <- new_thr w mind rt d';; Ok (d', t) else Ok (d', thr).
 
 (* ---------------------------------------------------------------- main loop *)
-Record st := mkst { s_cache : cache; s_delays : delays; s_thr : N; s_heap : heap; s_np : nat }.
+Definition table := N -> option N.
+Definition tables := nat -> nat -> table.
+Definition fixed (t : table) : tables := fun _ _ => t.
 
-Definition init (mind : N) : st := mkst [] [] mind [] 0.
+(* s_pos: messages consumed so far; s_np: messages delivered so far *)
+Record st := mkst { s_cache : cache; s_delays : delays; s_thr : N; s_heap : heap; s_np : nat; s_pos : nat }.
+
+Definition init (mind : N) : st := mkst [] [] mind [] 0 0.
 
 (* `while let Some(sm) = buffer.peek() { if sm.calc + max_buffer_time_us < rt { pop; outflow } else { break } }`
    fuel = number of entries in the heap (every iteration removes one) *)
@@ -235,15 +243,15 @@ Fixpoint flush (pick : picker) (fuel : nat) (np : nat) (h : heap) : res (list en
   end.
 
 (* body of `for m in inflow` *)
-Definition process (pick : picker) (w mind : N) (lcs : N -> option N) (s : st) (m : msg) : res (list entry * st) :=
-  '(calc, c') <- calc_time lcs (s_cache s) m;;
+Definition process (pick : picker) (w mind : N) (lcs : tables) (s : st) (m : msg) : res (list entry * st) :=
+  '(calc, c') <- calc_time (lcs (s_pos s) (s_np s)) (s_cache s) m;;
   delay <- sub_chk (m_rt m) calc;;
   '(d', thr') <- update_delays w mind (s_delays s) (s_thr s) (m_ecu m) (m_lc m) (m_rt m) delay;;
   let h := s_heap s ++ [(calc, m)] in
   '(out, h', np') <- release pick (length h) thr' (m_rt m) (s_np s) h;;
-  Ok (out, mkst c' d' thr' h' np').
+  Ok (out, mkst c' d' thr' h' np' (S (s_pos s))).
 
-Fixpoint run_state (pick : picker) (w mind : N) (lcs : N -> option N) (s : st) (input : list msg) : res (list entry * st) :=
+Fixpoint run_state (pick : picker) (w mind : N) (lcs : tables) (s : st) (input : list msg) : res (list entry * st) :=
   match input with
   | [] => Ok ([], s)
   | m :: r =>
@@ -253,13 +261,13 @@ Fixpoint run_state (pick : picker) (w mind : N) (lcs : N -> option N) (s : st) (
   end.
 
 (* released entries (with their calculated times), in outflow order *)
-Definition run_entries (pick : picker) (w mind : N) (lcs : N -> option N) (input : list msg) : res (list entry) :=
+Definition run_entries (pick : picker) (w mind : N) (lcs : tables) (input : list msg) : res (list entry) :=
   '(o, s) <- run_state pick w mind lcs (init mind) input;;
   o' <- flush pick (length (s_heap s)) (s_np s) (s_heap s);;
   Ok (o ++ o').
 
 (* the sequence passed to the outflow closure *)
-Definition run (pick : picker) (w mind : N) (lcs : N -> option N) (input : list msg) : res (list msg) :=
+Definition run (pick : picker) (w mind : N) (lcs : tables) (input : list msg) : res (list msg) :=
   o <- run_entries pick w mind lcs input;; Ok (map snd o).
 
 (* the picker that always proposes an invalid position: the first minimal entry is popped *)
